@@ -245,7 +245,6 @@ SubOK(q) ==
   /\ GlyphRange(t, P)
   /\ SearchIsLinear(t, P)
   /\ (EnumWanted(q, t) /\ SizeOf(t) <= 600) => EnumerateEqualsLookups(t, P)
-  /\ \A c \in P : SizeOf(t) > 600 \/ c \notin Covered(t) \/ <<c, Map(t, c)>> \in Mappings(t)
   /\ t.fmt = 4  => Sorted4(t.segs) /\ t.segs[Len(t.segs)].e = 65535
   /\ t.fmt = 12 => Sorted12(t.groups)
   /\ \A c \in P : BAD \notin Accept(t, c)          \* generated tables are well formed
